@@ -52,8 +52,8 @@ def run(ctx, driver):
             cfg, seed = stored[i]
         else:
             cfg = c08run.gen_cfg(rng)
-            if i % 10 != 9:
-                cfg["http2"] = False          # HTTP/2 connections are not thread-safe (F-C08-b): one run in ten keeps watching them
+            if i % 25 != 24:
+                cfg["http2"] = False          # HTTP/2 connections are not thread-safe (F-C08-b): a few runs keep watching them
             seed = rng.randrange(1 << 30)
         r = c08run.run_one(cfg, seed)
         rec.evals += 1
@@ -70,6 +70,11 @@ def run(ctx, driver):
             sig = {"proto": "h2" if cfg["http2"] else "h1"}
             if clause == "C08:request-failed" and not cfg["http2"]:
                 sig["cause"] = d.get("cause", "other")
+            if cfg["http2"]:
+                # one finding whatever the symptom: the shared h2 state is used without a lock (stream ids handed out twice, frames
+                # interleaved, bookkeeping corrupted) - KeyError, protocol errors, a request left queued, ...
+                d = dict(d, symptom=clause)
+                clause = "C08:http2-connection-not-thread-safe"
             rec.fail(clause, sig, {"cfg": cfg, "seed": seed, "detail": {k: v for k, v in d.items()}, "how_to_replay": "c08run.run_one(cfg, seed)"})
         if len(rec.samples) < 2 and r["stats"]["switches"] > 50 and not r["violations"]:
             rec.samples.append({"cfg": cfg, "seed": seed, "stats": r["stats"]})
